@@ -84,6 +84,8 @@ def row_words(r, d):
                 out.extend([MID_ITALICS if tok[1] else MID_PLAIN] * d)
             elif tok[0] == "bs":
                 out.extend([C.CONTROL["BS"]] * d)
+            elif tok[0] == "bg":
+                out.extend([C.word(0x10, 0x20 + tok[1])] * d)       # background attribute code (10 20..2f)
     flush()
     return out
 
@@ -106,6 +108,11 @@ def display(r):
             ital.append(False)
         elif tok[0] == "bs":
             if chars:
+                chars.pop()
+                ital.pop()
+        elif tok[0] == "bg":
+            # a background attribute code backs up over the blank that precedes it for old decoders - and over nothing else
+            if chars and chars[-1] == " ":
                 chars.pop()
                 ital.pop()
     return "".join(chars), "".join(ch for ch, i in zip(chars, ital) if i)
@@ -154,6 +161,7 @@ def cells_pool():
         [("txt", "plain"), ("mid", True), ("txt", "slanted")], [("txt", "a"), ("mid", True), ("txt", "b"), ("mid", False), ("txt", "c")],
         [("txt", "ABX"), ("bs",), ("txt", "C")], [("spc", "♪"), ("txt", " la la "), ("spc", "♪")], [("txt", "odd")],
         [("ext", "¡"), ("txt", "Hola!")],
+        [("txt", "warning"), ("bg", 2), ("txt", " sign")], [("txt", "mark "), ("bg", 4), ("txt", "up")],
     ]
 
 
@@ -391,6 +399,7 @@ def explore_rolling(ctx, thorough):
     texts = [[t] for t in ROW_TEXTS]
     texts[1] = ["HI HI", ("spc", "♪"), " YES"]
     texts[4] = [("spc", "♪"), "five"]
+    texts[2] = ["so  wide gap", ("spc", "♪"), " la"]          # two blanks on a word boundary; a blank padded to a word
     cases = []
     for depth, d, drop in itertools.product((2, 3, 4), (1, 2), (False, True)):
         for nrows in ((1, 2, 3, 5, 8) if thorough else (1, 3, 5)):
@@ -424,6 +433,48 @@ def explore_rolling(ctx, thorough):
             bad["order"].append(dict(case, times=starts))
         elif any(abs(starts[i][1] - starts[i + 1][0]) > 1e-3 for i in range(len(starts) - 1)):
             bad["chain"].append(dict(case, times=starts))
+    # simulate_roll_up: (a) every caption the reader returns has balanced italic nodes, also when rows with italics are
+    # stacked; (b) the option belongs to the call: a reader used once with it reads the next document like a fresh one
+    ital_rows = [["plain row"], [("mid", True), "slanted row"], ["third row"], [("mid", True), "again"], ["last"]]
+    for depth in (2, 3, 4):
+        lines_ = ["Scenarist_SCC V1.0", ""]
+        for k, row in enumerate(ital_rows):
+            words = [RU[depth]] + [C.CONTROL["CR"]] + [pac(15, 0)]
+            for tok in row:
+                words += text_words(tok) if isinstance(tok, str) else [MID_ITALICS]
+            lines_ += [f"{tc(1 + 2 * k, 0, False)}\t" + " ".join(words), ""]
+        lines_ += [f"{tc(1 + 2 * len(ital_rows), 0, False)}\t" + C.CONTROL["EDM"], ""]
+        doc = "\n".join(lines_)
+        for sim in (False, True):
+            n += 1
+            got = E_.read(doc, simulate_roll_up=sim)
+            if isinstance(got, tuple):
+                bad["once"].append({"mode": f"roll-up {depth}, rows with mid-row italics, simulate_roll_up={sim}", "raises": f"{got[1]}: {got[3]}"[:120]})
+            elif any(g["unbalanced"] for g in got):
+                bad["once"].append({"mode": f"roll-up {depth}, rows with mid-row italics, simulate_roll_up={sim}",
+                                    "why": "a returned caption has unbalanced italic style nodes",
+                                    "captions": [g["lines"] for g in got if g["unbalanced"]][:3]})
+        # (b)
+        plain = rollup_stream(depth, [["alpha"], ["bravo"], ["charlie"], ["delta"]], 1, False, False)
+        fresh = E_.read(plain)
+        n += 1
+        me = Stub("reader", {}, cls=E_.fn.cls)
+        try:
+            if E_.init is not None:
+                E_.F.call_function(E_.init, [], {}, self_value=me)
+            try:
+                E_.F.call_function(E_.fn, [plain], {"simulate_roll_up": True}, self_value=me)
+            except FoldRaise:
+                pass
+            again = read_back(E_.F.call_function(E_.fn, [plain], {}, self_value=me))
+        except FoldRaise as e:
+            again = ("raise", e.exc_name, None, str(e))
+        except AnalysisError as e:
+            raise AnalysisError(f"SCCReader.read cannot be folded end to end (reader reused): {e}")
+        key = lambda r: r if isinstance(r, tuple) else [(g["start"], g["end"], g["lines"]) for g in r]     # noqa: E731
+        if key(again) != key(fresh):
+            bad["once"].append({"mode": f"roll-up {depth}: a reader used once with simulate_roll_up=True, then without",
+                                "captions": str(key(again))[:300], "a_fresh_reader_gives": str(key(fresh))[:300]})
     return E_.fn, bad, n
 
 
@@ -449,6 +500,26 @@ def explore_lengths(ctx, thorough):
         if thorough or (a + b) % 2 == 0:
             cases.append(("roll-up", rollup_stream(2, [[r] for r in rows], 1, False, True), rows))
             cases.append(("paint-on", painton_stream([[r] for r in rows], 1, False), rows))
+    # two rows of one load on NON-adjacent screen rows: separate captions with the same start; sent top-down and bottom-up
+    for a, b in ((10, 32), (32, 10), (20, 20), (32, 33)):
+        rows = [txt(a, 1), txt(b, 2)]
+        for order in ((2, 15), (15, 2)):
+            prog = [[{"row": order[0], "indent": 0, "tab": 0, "cells": [("txt", rows[0])]},
+                     {"row": order[1], "indent": 0, "tab": 0, "cells": [("txt", rows[1])]}]]
+            cases.append((f"pop-on, rows {order[0]} and {order[1]} of one load", stream(prog, 1), rows))
+    # rows whose length counts extended characters (each replaces its stand-in: one column)
+    for k in (31, 32):
+        cells = [("txt", "X" * (k - 2) + "caf"), ("ext", "É")]           # k + 2 columns: 33 / 34
+        prog = [[{"row": 15, "indent": 0, "tab": 0, "cells": cells}]]
+        cases.append(("pop-on, extended character", stream(prog, 1), [display(prog[0][0])[0]]))
+    # an extended character right after the letter that is also its customary stand-in ('AÁ', 'eë'): two columns
+    for cells in ([("txt", "X" * 31 + "A"), ("ext", "Á")], [("txt", "Y" * 30 + "A"), ("ext", "Á"), ("txt", "Z")],
+                  [("txt", "X" * 30 + "A"), ("ext", "Á")]):
+        prog = [[{"row": 15, "indent": 0, "tab": 0, "cells": cells}]]
+        cases.append(("pop-on, extended character after its own stand-in letter", stream(prog, 1), [display(prog[0][0])[0]]))
+    cells = [("txt", "X" * 28 + "caf"), ("ext", "É")]                    # exactly 32 columns
+    cases.append(("pop-on, extended character", stream([[{"row": 15, "indent": 0, "tab": 0, "cells": cells}]], 1),
+                  [display({"cells": cells})[0]]))
     # five rows, the long one last
     prog5 = [[{"row": 11 + i, "indent": 0, "tab": 0, "cells": [("txt", txt(35 if i == 4 else 10, i))]} for i in range(5)]]
     cases.append(("pop-on, five rows", stream(prog5, 1), [txt(35 if i == 4 else 10, i) for i in range(5)]))
@@ -537,6 +608,30 @@ def explore_times(ctx, thorough):
         g = [(x["start"], x["end"]) for x in got]
         if len(g) != len(w) or any(abs(a[0] - b[0]) > 0.01 or abs(a[1] - b[1]) > 0.01 for a, b in zip(g, w)):
             bad["offset"].append({"offset_seconds": off, "times": g, "required": w})
+    # the simulate_roll_up option concerns roll-up captions only: a pop-on stream reads the same with it
+    for clear in ("separate", "never"):
+        prog = [one("AAA"), one("BBB"), one("CCC")]
+        doc = stream(prog, 1) if clear == "separate" else "\n".join(l for l in stream(prog, 1).split("\n") if C.CONTROL["EDM"] not in l)
+        n += 1
+        a_, b_ = E_.read(doc), E_.read(doc, simulate_roll_up=True)
+        strip_ = lambda r: r if isinstance(r, tuple) else [(g["start"], g["end"], g["lines"]) for g in r]     # noqa: E731
+        if strip_(a_) != strip_(b_):
+            bad["end"].append({"pop_on_stream_read_with": "simulate_roll_up=True", "erase": clear,
+                               "captions": str(strip_(b_))[:300], "without_the_option": str(strip_(a_))[:300]})
+    # time codes of both kinds in one document (spliced segments): each line is converted by its own separator
+    for order in (":;", ";:"):
+        lines = ["Scenarist_SCC V1.0", ""]
+        want = []
+        for k, sep in enumerate(order * 2):
+            words = [C.CONTROL["RCL"], C.CONTROL["ENM"], pac(15, 0)] + text_words(f"SEG{k}") + [C.CONTROL["EOC"]]
+            lines += [f"00:00:{3 * k + 1:02d}{sep}00\t" + " ".join(words), ""]
+            lines += [f"00:00:{3 * k + 2:02d}{sep}15\t" + C.CONTROL["EDM"], ""]
+            want.append((instant(3 * k + 1, 0, len(words) - 1, sep == ";"), instant(3 * k + 2, 15, 0, sep == ";")))
+        n += 1
+        got = E_.read("\n".join(lines))
+        gs = got if isinstance(got, tuple) else [(g["start"], g["end"]) for g in got]
+        if isinstance(got, tuple) or len(gs) != len(want) or any(abs(a[0] - b[0]) > 0.01 or abs(a[1] - b[1]) > 0.01 for a, b in zip(gs, want)):
+            bad["start"].append({"time_codes": f"lines alternate '{order[0]}' and '{order[1]}'", "times": str(gs)[:300], "required": want})
     # one reader object, several documents: a read starts from a clean slate, also after a read that was aborted
     good = stream([one("A"), one("B")], 1)
     aborted = "\n".join(["Scenarist_SCC V1.0", "", f"{tc(1, 0, False)}\t" + " ".join(
